@@ -885,7 +885,7 @@ def gen_lf_take(rnd):
         Z[m] = take(A[k], B[m, k], C[m], 0);  LF: rank M leader B, rank K leader A"""
     r1, r2 = rnd.sample(["M", "K", "N", "J"], 2)
     ops = [("A", [r2]), ("B", [r1, r2]), ("C", [r1])]
-    if rnd.random() < 0.3:
+    if rnd.random() < 0.12:
         ops = [("A", [r2]), ("B", [r1, r2])]
     if rnd.random() < 0.3:
         ops[1] = ("B", [r2, r1])
